@@ -3,7 +3,8 @@ Driver handler for C18 (port objects). Line formats (harness/src/c18.rs):
   port_rd <access> <width> <port> <device word> => <n> (x<opcode hex> <dx> <acc>)* ret <value>
   port_wr <access> <width> <port> <value>       => <n> (x<opcode hex> <dx> <acc>)*
   port_eq <width> <p> <q>                       => <0|1>
-access: 0 `Port`, 1 `PortReadOnly`, 2 `PortWriteOnly`, 3 a clone of a `Port`.
+access: 0 `Port`, 1 `PortReadOnly`, 2 `PortWriteOnly`, 3 a clone of a `Port`, 4 two reads of one `Port` in one
+call, 5 a read whose value is discarded. A trailing `stray <n>` = port accesses trapped outside the observed call.
 Model output = the model's trace rendered the same way; oracle = `Spec/Port.lean`.
 -/
 import X86Model.Driver.Proto
@@ -42,7 +43,13 @@ def handleC18 : Handler := fun _cfg op a impl =>
       let c : Cpu := { Cpu.zero with dev := fun _ _ => BitVec.ofNat 32 dev }
       let p0 := Port.new w (accessOfNat acc) (BitVec.ofNat 16 port)
       let p := if acc = 3 then Port.clone p0 else p0
-      let ran := Port.read p c
+      -- access 4: two reads of the same port in one call (the second value is returned);
+      -- access 5: a read whose value is discarded (the call returns 0)
+      let prog : M (BitVec 32) :=
+        if acc = 4 then (do let _ ← Port.read p; Port.read p)
+        else if acc = 5 then (do let _ ← Port.read p; pure 0#32)
+        else Port.read p
+      let ran := prog c
       let evs := ran.trace.filterMap (Insn.portEv c)
       let ret := match ran.res with
         | .ok v => ["ret", toString v.toNat]
@@ -55,7 +62,13 @@ def handleC18 : Handler := fun _cfg op a impl =>
           match rest.drop (rest.length - 2), parsePortEvs body with
           | ["ret", v], some es =>
             (n.toNat? == some es.length) && (match v.toNat? with
-              | some r => portReadOk w port dev es r
+              | some r =>
+                if acc = 4 then
+                  (match es with
+                   | [e1, e2] => portReadOk w port dev [e1] (dev % 2^w.bits) && portReadOk w port dev [e2] r
+                   | _ => false)
+                else if acc = 5 then portReadOk w port dev es (dev % 2^w.bits) && r == 0
+                else portReadOk w port dev es r
               | none => false)
           | _, _ => false
         | [] => false
